@@ -15,7 +15,7 @@ RULE = (
     "constructors in a generated representation: arbitrary vertex order with repeats (for polygons with <= 5 "
     "vertices ALL permutations are tried inside each case), arbitrary face order, arbitrary vertex order inside "
     "each face, arbitrary face negations; Pyramid over a polygon with an apex on either side, measured again after "
-    "its apex was moved in place. Oracle: exact "
+    "its apex was moved in place; Segment.length on every edge, again after an end point was replaced by item assignment and after a move, and summed over the edges handed out by segments(). Oracle: exact "
     "perimeter (sum of sqrt of rationals), area |sum p_i x p_{i+1}|/2, volume sum|det|/6, height |n.(a-p)|/|n|; "
     "relative tolerance 1e-9; volume(x) vs x.volume() 1e-9. non-trivial = oblique pose (normal with >= 2 "
     "non-zero components, any face for polyhedra) or permuted order; distinct = distinct (shape, representation)."
@@ -169,7 +169,7 @@ def check(case, ctx):
 
 def strata(tier):
     q = tier == "quick"
-    fams = ["tetra", "box", "para", "prism", "pyramid", "bipyramid", "hull"]
+    fams = ["tetra", "box", "para", "prism", "pyramid", "bipyramid", "hull", "quirk"]
     out = [
         Stratum("polygon/3-5", "hyp", PC.polygon_case(3, 5), 300 if q else 6000),
         Stratum("polygon/6-8", "hyp", PC.polygon_case(6, 8), 400 if q else 12000),
